@@ -240,6 +240,23 @@ struct CallSpec {
 /// "every 4xx or 5xx status" / "2xx": codes beyond the nine listed ones (no 1xx/3xx; 205 has no body by definition)
 const WIDE_STATUSES: [u16; 32] = [202, 203, 206, 207, 226, 299, 402, 405, 406, 408, 409, 410, 411, 413, 415, 418, 422, 425, 426, 428, 429, 431, 451, 499, 501, 502, 504, 505, 507, 510, 511, 599];
 
+/// What a real server sends along: a throttling or failing server commonly says when to come back (seconds or a date),
+/// a 201 names a location, a 401 a challenge. None of it changes what the statement demands (one POST, an error for
+/// every 4xx/5xx), so the headers are a function of fields the call already has - tapes keep their meaning.
+fn response_headers_of(c: &CallSpec, status: u16) -> Vec<(String, String)> {
+    let mut h = vec![("Content-Type".to_string(), "text/xml; charset=utf-8".to_string()), ("Server".to_string(), "sim/1".to_string())];
+    if status >= 400 || c.cut % 4 == 3 {
+        let v = ["0", "1", "2", "Wed, 21 Oct 2026 07:28:00 GMT"][((c.cut / 4 + u64::from(status) / 100) % 4) as usize];
+        h.push(("Retry-After".to_string(), v.to_string()));
+    }
+    match status {
+        201 => h.push(("Location".to_string(), "http://other.invalid/created/1".to_string())),
+        401 => h.push(("WWW-Authenticate".to_string(), "Basic realm=\"sim\"".to_string())),
+        _ => {}
+    }
+    h
+}
+
 fn status_of(c: &CallSpec) -> u16 {
     if c.wide >= 32 {
         WIDE_STATUSES[(c.wide - 32) as usize % 32]
@@ -485,6 +502,7 @@ fn run_scenario(infos: &[ClientInfo], insts: &[Instances], sc: &Scenario, ch: &m
             cut_at: if body.is_empty() { 0 } else { (c.cut as usize) % body.len() },
             latency: c.latency,
             announce_length: c.framing == 0,
+            headers: response_headers_of(c, status_of(c)),
         });
         metas.push((opname, positions, body, exact));
         preps.push(p);
@@ -589,7 +607,7 @@ fn run_scenario(infos: &[ClientInfo], insts: &[Instances], sc: &Scenario, ch: &m
                 facts.probes.push(format!("violating_position:{pos}"));
             }
             // N5 (C07 sentence 2): restriction error, and nothing at all on the wire for this call
-            let wire = hist.iter().filter(|r| r.task == i && r.kind != EvKind::TaskCompleted).count();
+            let wire = hist.iter().filter(|r| r.task == i && !matches!(r.kind, EvKind::TaskCompleted | EvKind::TimerSet(_) | EvKind::TimerFired)).count();
             let is_restr = matches!(&result, CallResult::Error { variant: "Restriction", .. });
             if property == "C07" {
                 if wire > 0 {
